@@ -75,6 +75,15 @@ type FuncContract struct {
 	Line     int
 	NoInline bool
 	Trusted  bool
+	Watches  []WatchDef
+}
+
+// WatchDef: a term whose model value is reported with counterexamples
+// (watch NAME = expr; watchseq NAME COUNT = expr over j).
+type WatchDef struct {
+	Name  string
+	Count int // 0: single
+	Expr  ast.Expr
 }
 
 type Macro struct {
@@ -308,6 +317,24 @@ func (c *Contracts) parseFile(file string) error {
 				} else {
 					cur.Ghosts = append(cur.Ghosts, LetDef{name, e, src})
 				}
+			case "watch", "watchseq":
+				k := strings.Index(rest, "=")
+				if k < 0 {
+					return fail("bad watch")
+				}
+				head := strings.Fields(rest[:k])
+				e, err := parseExprSrc(strings.TrimSpace(rest[k+1:]))
+				if err != nil {
+					return fail("%v", err)
+				}
+				wd := WatchDef{Name: head[0], Expr: e}
+				if word == "watchseq" {
+					if len(head) != 2 {
+						return fail("watchseq NAME COUNT = expr")
+					}
+					wd.Count, _ = strconv.Atoi(head[1])
+				}
+				cur.Watches = append(cur.Watches, wd)
 			case "assigns":
 				es, srcs, err := parseExprList(rest)
 				if err != nil {
